@@ -222,11 +222,24 @@ def gen_adversarial(seed, rng):
     names = sorted(n for n in SCRIPT_FUNCTIONS if n not in EXCLUDED_FUNCS)
     stmts = [ir.st_function('fnA', ['a0'], [ir.st_expr(ir.call('hostTick', ir.s('in-fnA'))),
                                             ir.st_return(ir.binop('/', ir.var('a0'), ir.num(0)))])]
+    # fnRec(n, lim): recursion lim levels deep — beyond the host's stack the interpreter's own frames fail
+    stmts.append(ir.st_function('fnRec', ['n', 'lim'], [
+        ir.st_jump('done', ir.binop('>=', ir.var('n'), ir.var('lim'))),
+        ir.st_return(ir.call('fnRec', ir.binop('+', ir.var('n'), ir.num(1)), ir.var('lim'))),
+        ir.st_label('done'),
+        ir.st_return(ir.var('n'))]))
     n = rng.randint(2, 8)
     kinds = []
     for ix in range(n):
         c = rng.random()
-        if c < 0.15:
+        if c < 0.05:
+            e = ir.call('fnRec', ir.num(0), ir.num(rng.choice([30, 150, 400, 3000, 1000000000])))
+            kinds.append('deep-recursion')
+        elif c < 0.08:
+            # hand-built model: a call expression without the optional 'args' member
+            e = {'function': {'name': rng.choice(['fnA', 'fnRec', 'arrayNew', 'stringLength', 'hostTick', 'mathMax'])}}
+            kinds.append('call-without-args')
+        elif c < 0.18:
             e = classic(rng)
             kinds.append('classic')
         elif c < 0.40:
@@ -418,7 +431,7 @@ def run_adversarial(plan, stats):
             if plan.get('entry') == 'expression':
                 out = run_expressions(p)
             else:
-                out = run_real(p, limit=0, sim_options=True, max_starts=5000)
+                out = run_real(p, limit=0, sim_options=True, max_starts=400000)
             stats.c['evaluations'] += 1
             stats.faults.update(out.fired or {})
             outs[debug] = out
